@@ -6,6 +6,7 @@ usage: seedcheck.py confirm <src dir> <id> <X>      # src dir holds patch.diff, 
 import sys, os, re, json, subprocess, shutil, tempfile, time
 ENV = dict(os.environ, GOFLAGS='-mod=mod', GOPROXY='off', GOSUMDB='off', GOTOOLCHAIN='local')
 VERIF = os.path.dirname(os.path.dirname(os.path.abspath(__file__)))
+REPO = os.environ.get('VERIF_REPO', '/repo')      # a snapshot of the repository (vp run --with-repo) can stand in for /repo
 SEEDED = os.path.join(VERIF, 'seeded')
 
 def sh(cmd, cwd=None, timeout=3600):
@@ -56,9 +57,9 @@ def confirm(src, pid, x):
 def detect(name, tier, checks):
     d = os.path.join(SEEDED, name)
     meta = json.load(open(os.path.join(d, 'meta.json')))
-    rc, out = sh('git -C /repo status --short')
-    assert out.strip() == '', '/repo not clean: ' + out
-    rc, out = sh(f'git -C /repo apply {d}/patch.diff'); assert rc == 0, out
+    rc, out = sh(f'git -C {REPO} status --short')
+    assert out.strip() == '', f'{REPO} not clean: ' + out
+    rc, out = sh(f'git -C {REPO} apply {d}/patch.diff'); assert rc == 0, out
     results = {}
     try:
         for c in checks:
@@ -73,7 +74,7 @@ def detect(name, tier, checks):
                 if m and os.path.exists(m.group(1)):
                     shutil.copy(m.group(1), os.path.join(d, f'replay-{c}-{tier}.txt'))
     finally:
-        rc, out = sh('git -C /repo checkout -- . && git -C /repo status --short')
+        rc, out = sh(f'git -C {REPO} checkout -- . && git -C {REPO} status --short')
         assert out.strip() == '', out
     meta['detection'].setdefault(tier, {}).update(results)
     json.dump(meta, open(os.path.join(d, 'meta.json'), 'w'), indent=1)
